@@ -44,6 +44,29 @@ Hypothesis offers_ok : forall x offers, get_possible_transitions i x = Ok offers
 Definition sidesJ (lg : mlog) : Prop := forall tr y, In (tr, y) lg -> side tr y = true.
 Definition all_J (lg : mlog) : Prop := forall tr y, In (tr, y) lg -> NO y /\ J y.
 
+(* the micro-log as a chain: every entry was applied, in a state satisfying J and the batch invariant, to the post-state
+   of the entry before it (to the state the decision started from for the first one) - up to the clock, which the time
+   machines move between batches *)
+Definition wit (x : state) (tr : transition) (y : state) : Prop :=
+  NO x /\ J x /\ (exists R, Q (tr :: R) x) /\ is_transition_valid x tr = Ok true /\ apply_transition sigma i x tr = Ok y.
+Definition ceq (x x' : state) : Prop := exists t, x' = set_now x t.
+Fixpoint chainW (x : state) (lg : mlog) : Prop :=
+  match lg with [] => True | (tr, y) :: r => (exists x1, ceq x x1 /\ wit x1 tr y) /\ chainW y r end.
+Fixpoint lastW (x0 : state) (lg : mlog) : state := match lg with [] => x0 | (_, y) :: r => lastW y r end.
+
+Lemma ceq_refl x : ceq x x.
+Proof. exists (s_now x). destruct x; reflexivity. Qed.
+Lemma ceq_now x x' t : ceq x x' -> ceq x (set_now x' t).
+Proof. intros [t0 ->]. exists t. reflexivity. Qed.
+
+Lemma chainW_snoc : forall lg x0 tr y x, chainW x0 lg -> ceq (lastW x0 lg) x -> wit x tr y ->
+  chainW x0 (lg ++ [(tr, y)]) /\ lastW x0 (lg ++ [(tr, y)]) = y.
+Proof.
+  induction lg as [|[tr0 y0] r IH]; intros x0 tr y x Hc Hl Hw; simpl in *.
+  - split; [split; [exists x; auto|exact I]|reflexivity].
+  - destruct Hc as [A B]. destruct (IH y0 tr y x B Hl Hw) as [C D]. split; [split; auto|exact D].
+Qed.
+
 Lemma all_J_snoc lg tr y : all_J lg -> NO y -> J y -> all_J (lg ++ [(tr, y)]).
 Proof.
   intros H N F tr' y' Hin. apply in_app_iff in Hin. destruct Hin as [Hin|[E|[]]]; eauto. inversion E; subst; auto.
@@ -63,28 +86,32 @@ Proof.
     + apply IH in H. lia.
 Qed.
 
-Lemma process_PQ : forall trs x n lg x' lg',
-  NO x -> J x -> Q trs x -> all_J lg -> sidesJ lg -> process_transitions sigma i trs x n lg = Ok (x', 0, lg') ->
-  NO x' /\ J x' /\ all_J lg' /\ sidesJ lg' /\ s_now x' = s_now x /\ Q [] x'.
+Lemma process_PQ : forall trs x n lg x' lg' xs,
+  NO x -> J x -> Q trs x -> all_J lg -> sidesJ lg -> chainW xs lg -> ceq (lastW xs lg) x ->
+  process_transitions sigma i trs x n lg = Ok (x', 0, lg') ->
+  NO x' /\ J x' /\ all_J lg' /\ sidesJ lg' /\ s_now x' = s_now x /\ Q [] x' /\ chainW xs lg' /\ ceq (lastW xs lg') x'.
 Proof.
-  induction trs as [|tr r IH]; intros x n lg x' lg' N F HQ L S H; simpl in H.
-  - inversion H; subst; auto 6.
+  induction trs as [|tr r IH]; intros x n lg x' lg' xs N F HQ L S Hch Hla H; simpl in H.
+  - inversion H; subst; auto 8.
   - destruct (is_transition_valid x tr) as [v|e] eqn:Ev; simpl in H; [|discriminate]. destruct v.
     + destruct (apply_transition sigma i x tr) as [x1|e] eqn:Ea; simpl in H; [|discriminate].
       pose proof (apply_preserves_NO sigma i Hnn _ _ _ N Ea) as N1.
       destruct (J_apply _ _ _ _ N F HQ Ev Ea) as [F1 [Q1 S1]].
-      destruct (IH _ _ _ _ _ N1 F1 Q1 (all_J_snoc _ _ _ L N1 F1) (sidesJ_snoc _ _ _ S S1) H) as [A [B [C [D [E0 E1]]]]].
-      split; auto. split; auto. split; auto. split; auto. split; auto. rewrite E0. eapply apply_now; eauto.
+      assert (Hw : wit x tr x1) by (split; auto; split; auto; split; [eauto|auto]).
+      destruct (chainW_snoc _ _ _ _ _ Hch Hla Hw) as [Hch1 Hla1].
+      destruct (IH _ _ _ _ _ xs N1 F1 Q1 (all_J_snoc _ _ _ L N1 F1) (sidesJ_snoc _ _ _ S S1) Hch1
+                  ltac:(rewrite Hla1; apply ceq_refl) H) as [A [B [C [D [E0 [E1 [E2 E3]]]]]]].
+      split; auto. split; auto. split; auto. split; auto. split; [rewrite E0; eapply apply_now; eauto|auto].
     + apply process_nerr_ge in H. lia.
 Qed.
 
-Definition result_J (lg : mlog) (x' : state) (offers : list transition) : Prop :=
-  all_J lg /\ sidesJ lg /\ Forall (OK x') offers
+Definition result_J (xs : state) (lg : mlog) (x' : state) (offers : list transition) : Prop :=
+  chainW xs lg /\ all_J lg /\ sidesJ lg /\ Forall (OK x') offers
   /\ exists xq, NO xq /\ J xq /\ EB xq /\ create_timed_transitions i xq = Ok []
                 /\ (x' = xq \/ (offers = [] /\ exists z, x' = set_now xq z)).
 
-Lemma loop_exit_PQ x x' offers lg lg' :
-  NO x -> J x -> EB x -> create_timed_transitions i x = Ok [] -> all_J lg -> sidesJ lg ->
+Lemma loop_exit_PQ xs x x' offers lg lg' :
+  chainW xs lg -> NO x -> J x -> EB x -> create_timed_transitions i x = Ok [] -> all_J lg -> sidesJ lg ->
   (if all_in_output i x
    then match max_done_end x with
         | Ok (Some z) => SOk (set_now x z) [] lg
@@ -92,47 +119,48 @@ Lemma loop_exit_PQ x x' offers lg lg' :
         | Err e => SRaise e end
    else match get_possible_transitions i x with
         | Ok offers => SOk x offers lg
-        | Err e => SRaise e end) = SOk x' offers lg' -> result_J lg' x' offers.
+        | Err e => SRaise e end) = SOk x' offers lg' -> result_J xs lg' x' offers.
 Proof.
-  intros N F He Hct L S H. destruct (all_in_output i x).
+  intros Hch N F He Hct L S H. destruct (all_in_output i x).
   - destruct (max_done_end x) as [[z|]|]; [| |discriminate]; injection H as E1 E2 E3; subst x' offers lg';
-      (split; [exact L|]); (split; [exact S|]); (split; [constructor|]); exists x; (split; [exact N|]); (split; [exact F|]);
+      (split; [exact Hch|]); (split; [exact L|]); (split; [exact S|]); (split; [constructor|]); exists x; (split; [exact N|]); (split; [exact F|]);
       (split; [exact He|]); (split; [exact Hct|]); [right; eauto|left; reflexivity].
   - destruct (get_possible_transitions i x) as [offs|] eqn:Eo; [|discriminate]. injection H as E1 E2 E3. subst x' offers lg'.
-    split; [exact L|]. split; [exact S|]. split; [eapply offers_ok; eauto|].
+    split; [exact Hch|]. split; [exact L|]. split; [exact S|]. split; [eapply offers_ok; eauto|].
     exists x. split; [exact N|]. split; [exact F|]. split; [exact He|]. split; [exact Hct|]. left; reflexivity.
 Qed.
 
 Lemma nerr_zero n : Nat.ltb 0 n = false -> n = 0.
 Proof. intros H. apply Nat.ltb_ge in H. lia. Qed.
 
-Lemma timed_loop_PQ fuel : forall x0 x timed lg x' offers lg',
+Lemma timed_loop_PQ fuel : forall x0 x timed lg x' offers lg' xs,
   NO x -> J x -> EB x -> (exists t1 tele, create_timed_transitions i x = Ok t1 /\ timed = t1 ++ tele) ->
-  Q timed x -> all_J lg -> sidesJ lg -> timed_loop sigma i fuel x0 x timed lg = SOk x' offers lg' ->
-  result_J lg' x' offers.
+  Q timed x -> all_J lg -> sidesJ lg -> chainW xs lg -> ceq (lastW xs lg) x ->
+  timed_loop sigma i fuel x0 x timed lg = SOk x' offers lg' ->
+  result_J xs lg' x' offers.
 Proof.
   assert (Hnil : forall x timed, (exists t1 tele, create_timed_transitions i x = Ok t1 /\ timed = t1 ++ tele) -> timed = [] ->
                    create_timed_transitions i x = Ok []).
   { intros x timed [t1 [tele [A B]]] ->. symmetry in B. apply app_eq_nil in B. destruct B as [-> _]. exact A. }
-  induction fuel as [|f IH]; intros x0 x timed lg x' offers lg' N F He Hct HQ L S H; simpl in H.
+  induction fuel as [|f IH]; intros x0 x timed lg x' offers lg' xs N F He Hct HQ L S Hch Hla H; simpl in H.
   - destruct timed; [|discriminate]. eapply loop_exit_PQ; eauto.
   - destruct timed as [|t ts]; [eapply loop_exit_PQ; eauto|].
     destruct (process_transitions sigma i (t :: ts) x 0 lg) as [[[x1 nerr] lg1]|e] eqn:Ep; [|discriminate].
     destruct (Nat.ltb 0 nerr) eqn:En; [discriminate|]. apply nerr_zero in En. subst nerr.
     destruct (jump_to_event i x1) as [tt|e] eqn:Ej; [|discriminate].
     destruct (create_timed_transitions i (set_now x1 tt)) as [timed'|e] eqn:Ec; [|discriminate].
-    destruct (process_PQ _ _ _ _ _ _ N F HQ L S Ep) as [N1 [F1 [L1 [S1 [_ Q1]]]]].
+    destruct (process_PQ _ _ _ _ _ _ xs N F HQ L S Hch Hla Ep) as [N1 [F1 [L1 [S1 [_ [Q1 [Hch1 Hla1]]]]]]].
     destruct (jump_to_event_ok i _ _ N1 Ej) as [Hle N2].
     assert (F2 : J (set_now x1 tt)) by (apply J_now; auto).
     assert (E2 : EB (set_now x1 tt)) by (apply E_now; apply E_end; auto).
-    eapply IH; [exact N2|exact F2|exact E2| | |exact L1|exact S1|exact H].
+    eapply IH; [exact N2|exact F2|exact E2| | |exact L1|exact S1|exact Hch1|apply ceq_now; exact Hla1|exact H].
     + exists timed', []. rewrite app_nil_r. auto.
     + eapply Q_timed0; eauto.
 Qed.
 
 Theorem step_PQ fuel x0 trs tm x' offers lg :
   tm <> TMJumpByOne -> NO x0 -> J x0 -> EB x0 -> (trs <> [] -> Q (sorted_by_transport trs) x0) ->
-  step sigma i fuel x0 trs tm = SOk x' offers lg -> result_J lg x' offers.
+  step sigma i fuel x0 trs tm = SOk x' offers lg -> result_J x0 lg x' offers.
 Proof.
   intros Htm N F He HQ H. unfold step in H.
   destruct (match trs with [] => Ok (x0, 0, []) | _ :: _ => process_transitions sigma i (sorted_by_transport trs) x0 0 [] end)
@@ -142,17 +170,18 @@ Proof.
   destruct (create_timed_transitions i (set_now x1 t)) as [timed|e] eqn:Ec; [|discriminate].
   destruct (get_possible_transitions i (set_now x1 t)) as [poss|e] eqn:Eg; [|discriminate].
   destruct (filter_teleport i (set_now x1 t) poss) as [tele|e] eqn:Ef; [|discriminate].
-  assert (H1 : NO x1 /\ J x1 /\ all_J lg1 /\ sidesJ lg1 /\ EB x1).
+  assert (H1 : NO x1 /\ J x1 /\ all_J lg1 /\ sidesJ lg1 /\ EB x1 /\ chainW x0 lg1 /\ ceq (lastW x0 lg1) x1).
   { destruct trs as [|o os].
-    - inversion Ep; subst. split; [exact N|]. split; [exact F|]. split; [intros tr y []|]. split; [intros tr y []|exact He].
-    - destruct (process_PQ _ _ _ _ _ _ N F (HQ ltac:(discriminate))
+    - inversion Ep; subst. split; [exact N|]. split; [exact F|]. split; [intros tr y []|]. split; [intros tr y []|].
+      split; [exact He|]. split; [exact I|apply ceq_refl].
+    - destruct (process_PQ _ _ _ _ _ _ x0 N F (HQ ltac:(discriminate))
                   (fun tr y (Hin : In (tr, y) []) => match Hin with end)
-                  (fun tr y (Hin : In (tr, y) []) => match Hin with end) Ep) as [A [B [C [D [_ Q1]]]]]. auto 6. }
-  destruct H1 as [N1 [F1 [L1 [S1 E1]]]].
+                  (fun tr y (Hin : In (tr, y) []) => match Hin with end) I (ceq_refl x0) Ep) as [A [B [C [D [_ [Q1 [K1 K2]]]]]]]. auto 8. }
+  destruct H1 as [N1 [F1 [L1 [S1 [E1 [Hch1 Hla1]]]]]].
   destruct (run_tm_ok i tm _ _ Htm N1 Et) as [Hle N2].
   assert (F2 : J (set_now x1 t)) by (apply J_now; auto).
   assert (E2 : EB (set_now x1 t)) by (apply E_now; auto).
-  eapply timed_loop_PQ; [exact N2|exact F2|exact E2| | |exact L1|exact S1|exact H].
+  eapply timed_loop_PQ; [exact N2|exact F2|exact E2| | |exact L1|exact S1|exact Hch1|apply ceq_now; exact Hla1|exact H].
   - exists timed, tele. auto.
   - eapply Q_timed; eauto.
 Qed.
@@ -163,7 +192,7 @@ Proof. unfold sorted_by_transport. simpl. destruct (is_transport_new o); reflexi
 Theorem mw_step_PQ fuel r m a r' m' lg :
   NO (r_x r) -> J (r_x r) -> EB (r_x r) -> create_timed_transitions i (r_x r) = Ok [] ->
   Forall (OK (r_x r)) (r_offers r) -> mw_step sigma i fuel r m a = MOk r' m' lg ->
-  result_J lg (r_x r') (r_offers r').
+  result_J (r_x r) lg (r_x r') (r_offers r').
 Proof.
   intros N F He Hct HO H. unfold mw_step in H.
   destruct (r_offers r) as [|o1 rest] eqn:Eo; [discriminate|].
@@ -171,11 +200,11 @@ Proof.
   destruct (a =? 0)%Z.
   - destruct rest as [|o2 rest].
     + destruct (step sigma i fuel (r_x r) [] TMForceJump) as [x' offers lg'| | |] eqn:Es; try discriminate.
-      assert (R : result_J lg' x' offers) by (eapply step_PQ; eauto; [discriminate|intros C; congruence]).
+      assert (R : result_J (r_x r) lg' x' offers) by (eapply step_PQ; eauto; [discriminate|intros C; congruence]).
       destruct offers.
       * destruct (all_in_output i x'); [|discriminate]. inversion H; subst. exact R.
       * inversion H; subst. exact R.
-    + inversion H; subst; simpl. split; [intros tr y []|]. split; [intros tr y []|].
+    + inversion H; subst; simpl. split; [exact I|]. split; [intros tr y []|]. split; [intros tr y []|].
       split; [inversion HO; auto|]. exists (r_x r). split; [exact N|]. split; [exact F|]. split; [exact He|]. split; [exact Hct|]. left; reflexivity.
   - destruct (step sigma i fuel (r_x r) [o1] TMJumpToEvent) as [x' offers lg'| | |] eqn:Es; try discriminate.
     inversion H; subst. eapply step_PQ; eauto; [discriminate|].
@@ -193,10 +222,10 @@ Proof.
   - pose proof H as H0. unfold mw_reset in H.
     destruct (step sigma i fuel x0 [] TMJumpToEvent) as [x' offers lg'| | |] eqn:Es; try discriminate.
     inversion H; subst. simpl.
-    destruct (step_PQ fuel x0 [] TMJumpToEvent _ _ _ ltac:(discriminate) N F He ltac:(intros C; congruence) Es) as [A [B [C D]]].
+    destruct (step_PQ fuel x0 [] TMJumpToEvent _ _ _ ltac:(discriminate) N F He ltac:(intros C; congruence) Es) as [_ [A [B [C D]]]].
     split; [eapply rg_reset; eauto|]. split; auto.
   - destruct IH as [RG [HO [xq [Nq [Fq [Eq [Hct [E0|[E0 _]]]]]]]]].
-    + subst xq. destruct (mw_step_PQ _ _ _ _ _ _ _ Nq Fq Eq Hct HO Hm) as [A [B [C D]]].
+    + subst xq. destruct (mw_step_PQ _ _ _ _ _ _ _ Nq Fq Eq Hct HO Hm) as [_ [A [B [C D]]]].
       split; [eapply rg_step; eauto|]. split; auto.
     + unfold mw_step in Hm. rewrite E0 in Hm. discriminate.
 Qed.
@@ -217,7 +246,19 @@ Theorem reach_micro_J fuel x0 joker0 ta r m a r' m' lg :
 Proof.
   intros N F He H Hm tr y Hin.
   destruct (reach_reachG_E _ _ _ _ _ _ N F He H) as [_ [HO [xq [Nq [Fq [Eq [Hct [E0|[E0 _]]]]]]]]].
-  - subst xq. destruct (mw_step_PQ _ _ _ _ _ _ _ Nq Fq Eq Hct HO Hm) as [A [B _]]. split; [apply (A _ _ Hin)|apply (B _ _ Hin)].
+  - subst xq. destruct (mw_step_PQ _ _ _ _ _ _ _ Nq Fq Eq Hct HO Hm) as [_ [A [B _]]]. split; [apply (A _ _ Hin)|apply (B _ _ Hin)].
+  - unfold mw_step in Hm. rewrite E0 in Hm. discriminate.
+Qed.
+
+(* ... and the micro-log of every decision is a chain of witnessed applications starting in the state the decision was
+   taken in *)
+Theorem reach_micro_chain fuel x0 joker0 ta r m a r' m' lg :
+  NO x0 -> J x0 -> EB x0 -> reach sigma i fuel x0 joker0 ta r m -> mw_step sigma i fuel r m a = MOk r' m' lg ->
+  chainW (r_x r) lg.
+Proof.
+  intros N F He H Hm.
+  destruct (reach_reachG_E _ _ _ _ _ _ N F He H) as [_ [HO [xq [Nq [Fq [Eq [Hct [E0|[E0 _]]]]]]]]].
+  - subst xq. destruct (mw_step_PQ _ _ _ _ _ _ _ Nq Fq Eq Hct HO Hm) as [A _]. exact A.
   - unfold mw_step in Hm. rewrite E0 in Hm. discriminate.
 Qed.
 
